@@ -11,6 +11,7 @@
 -/
 import PS.Theorems.C03
 import PS.Proofs.Periodic
+import PS.Proofs.Rank
 namespace PS
 
 /-- time a busy interval `[s, e]` spends inside `[lo, hi]` -/
@@ -789,5 +790,39 @@ theorem periodicInterruptedOne_complete (b : BusyRef) (t : Task) (ivs : List (In
             exact hmax m rfl
   | fixed d => simp only [hk] at h ⊢; exact hfixed h
   | zero => simp only [hk] at h ⊢; exact hfixed h
+
+/-! ### the gap classes, read pairwise -/
+
+/-- starts and ends of the busy intervals are ordered alike (true of the disjoint busy intervals of one worker) -/
+def Comonotone (ρ : Env) (busy : List BusyRef) : Prop :=
+  ∀ x ∈ busy, ∀ y ∈ busy, x.sV ρ < y.sV ρ → x.eV ρ < y.eV ρ
+
+/-- **C04 (ResourceNonDelay / ResourceTasksDistance, pairwise).**  Whenever the busy intervals are ordered alike
+    by start and by end, the relation the constraint asks of "the i-th sorted end and the (i+1)-th sorted start"
+    holds between every busy interval and its immediate successor by start. -/
+theorem GapsOK_pairwise (ρ : Env) (busy : List BusyRef) (P : Int → Int → Prop) (h : GapsOK ρ busy P)
+    (hco : Comonotone ρ busy) :
+    ∀ a ∈ busy, ∀ b ∈ busy, a.sV ρ < b.sV ρ →
+      (∀ c ∈ busy, ¬ (a.sV ρ < c.sV ρ ∧ c.sV ρ < b.sV ρ)) → P (a.eV ρ) (b.sV ρ) := by
+  intro a ha b hb hab hsucc
+  obtain ⟨hS, hE, hg⟩ := h
+  have := gaps_pairwise (busy.map (fun x => (x.sV ρ, x.eV ρ))) P
+    (by simpa [List.map_map, Function.comp_def] using hS)
+    (by simpa [List.map_map, Function.comp_def] using hE)
+    (by
+      intro x hx y hy hxy
+      obtain ⟨x', hx', rfl⟩ := List.mem_map.1 hx
+      obtain ⟨y', hy', rfl⟩ := List.mem_map.1 hy
+      exact hco x' hx' y' hy' hxy)
+    (by
+      intro i hi
+      simp only [List.length_map] at hi
+      simpa [List.map_map, Function.comp_def] using hg i hi)
+    (a.sV ρ, a.eV ρ) (b.sV ρ, b.eV ρ) (List.mem_map.2 ⟨a, ha, rfl⟩) (List.mem_map.2 ⟨b, hb, rfl⟩) hab
+    (by
+      intro c hc
+      obtain ⟨c', hc', rfl⟩ := List.mem_map.1 hc
+      exact hsucc c' hc')
+  exact this
 
 end PS
